@@ -19,6 +19,8 @@ namespace cnl {
             // verification hook: called with the abort message before the process dies;
             // a monitor may record it and unwind (siglongjmp) instead of returning
             inline void (*abort_hook)(char const*) = nullptr;
+            // verification hook: logical step counter for data-dependent loops
+            inline void (*tick_hook)() = nullptr;
         }
 #endif
         template<class Result>
